@@ -1478,7 +1478,9 @@ func (x *Exec) step(p *Path, in ssa.Instruction) {
 		var ok string
 		var res Val
 		if types.IsInterface(in.AssertedType) {
-			ok = e.fresh("implements", "Bool")
+			fn := implFun(in.AssertedType)
+			e.ufun(fn, "(Int) Bool")
+			ok = "(" + fn + " " + xv.Tag + ")"
 			p.assume("(=> " + ok + " (> " + xv.Tag + " 0))")
 			res = Val{K: KIface, T: in.AssertedType, Tag: xv.Tag, S: xv.S, Label: xv.Label}
 		} else {
@@ -1550,9 +1552,29 @@ func (x *Exec) step(p *Path, in ssa.Instruction) {
 	case *ssa.MakeClosure:
 		fnv := in.Fn.(*ssa.Function)
 		r := Val{K: KFunc, T: in.Type(), S: e.alloc(p, "closure"), Fn: fnv}
+		// a closure that is only deferred / called directly by this function does not let its captured
+		// variables escape to other code
+		local := true
+		if refs := in.Referrers(); refs != nil {
+			for _, ref := range *refs {
+				switch ref := ref.(type) {
+				case *ssa.Defer:
+					if ref.Call.Value != ssa.Value(in) {
+						local = false
+					}
+				case *ssa.Call:
+					if ref.Call.Value != ssa.Value(in) {
+						local = false
+					}
+				case *ssa.DebugRef:
+				default:
+					local = false
+				}
+			}
+		}
 		for _, b := range in.Bindings {
 			bv := x.val(p, b)
-			if bv.K == KAddr && bv.A.Kind == ALocal {
+			if bv.K == KAddr && bv.A.Kind == ALocal && !local {
 				p.escaped[bv.A.Cell] = true
 			}
 			r.Binds = append(r.Binds, bv)
@@ -2048,4 +2070,10 @@ func (x *Exec) checkWiring(p *Path, fn *ssa.Function, fc *FuncContract) {
 		}
 		x.oblige(p, "wiring", slot, goal, nil, "table entry "+slot+" is bound to "+want+" (found "+found[slot]+")")
 	}
+}
+
+// implFun names the uninterpreted predicate "dynamic type tag implements interface T".
+func implFun(t types.Type) string {
+	n := types.TypeString(t, nil)
+	return "impl_" + strings.NewReplacer("/", "_", ".", "_", "*", "p", " ", "", "{", "", "}", "", "(", "", ")", "", ",", "_", "[", "", "]", "").Replace(n)
 }
